@@ -3,7 +3,7 @@
 cd /verif
 id=$1; shift
 for p in harness/props/$id.py harness/props/${id,,}_*.py lean/NipyVerif/Model/$id*.lean lean/NipyVerif/Lemmas/$id*.lean \
-         lean/NipyVerif/Props/$id*.lean lean/NipyVerif/Gen/$id*.lean lean/Drivers/$id.lean proposed_fixes/$id* corpus/$id \
+         lean/NipyVerif/Props/$id*.lean lean/NipyVerif/Gen/$id*.lean lean/NipyVerif/Gen/Audit$id.lean evidence/$id.json lean/Drivers/$id.lean proposed_fixes/$id* corpus/$id \
          harness/translate harness/decython.py known_findings.json seeded tools lean/lakefile.toml; do
   [ -e "$p" ] && git add -A "$p"
 done
